@@ -336,3 +336,44 @@ func NewListening6(a *net.UDPAddr, handlers []handler.Handler6) (c *Capture6, pr
 	}
 	return c, probed, ifInfo, nil
 }
+
+// Session4 is a DHCPv4 listener without a socket that lives as long as a
+// listener of a running server does: one listener4 value handles every datagram
+// fed to it, so whatever HandleMsg4 keeps in the listener between datagrams is
+// kept here as well. Feeds are handled one at a time.
+type Session4 struct {
+	mu sync.Mutex
+	l  *listener4
+}
+
+// NewSession4 builds the listener once. ifi is the interface it is bound to, or
+// nil for an unbound listener
+func NewSession4(handlers []handler.Handler4, ifi *net.Interface) *Session4 {
+	l := &listener4{handlers: handlers}
+	if ifi != nil {
+		l.Interface = *ifi
+	}
+	return &Session4{l: l}
+}
+
+// Feed hands one datagram to the session's listener the way Serve does and
+// returns what the server tried to send for it
+func (s *Session4) Feed(datagram []byte, oob *ipv4.ControlMessage, peer *net.UDPAddr) []Sent {
+	s.mu.Lock()
+	defer s.mu.Unlock()
+	sink := &verifSink{}
+	gid := verifGoID()
+	verifSinks4.Store(s.l, sink)
+	verifFrameSinks.Store(gid, sink)
+	defer verifSinks4.Delete(s.l)
+	defer verifFrameSinks.Delete(gid)
+
+	b := *bufpool.Get().(*[]byte)
+	b = b[:MaxDatagram]
+	n := copy(b, datagram)
+	s.l.HandleMsg4(b[:n], oob, peer)
+
+	sink.mu.Lock()
+	defer sink.mu.Unlock()
+	return sink.sent
+}
